@@ -52,6 +52,11 @@ where
         }
         drop(guard);
 
+        if i < self.chunk_size() {
+            // the wrapped iterator reported its end: the end is final, also for an iterator that is not fused
+            iter.complete();
+        }
+
         let older_count = iter.progress_yielded_counter(self.chunk_size());
         assert_eq!(older_count, begin_idx);
 
